@@ -30,7 +30,10 @@ type havocEvent struct {
 	key      string
 	old, new Term
 	pred     func(a Term) Term // modified-address predicate; nil = everything may change
+	pos      int               // script position at which the havoc happened
 }
+
+type addrUse struct{ first, last int }
 
 type closureInfo struct {
 	fn       *ssa.Function
@@ -51,7 +54,7 @@ type VC struct {
 	tyTypes     map[int]types.Type
 	fldTags     map[string]int
 	memSorts    map[string]string
-	addrTerms   map[string]map[Term]bool
+	addrTerms   map[string]map[Term]*addrUse
 	havocs      []havocEvent
 	closures    map[Term]*closureInfo
 	fnTerms     map[Term]*ssa.Function
@@ -86,6 +89,8 @@ type VC struct {
 	elemInfo     map[Term]elemInfo
 	slicePtr     map[Term]Term
 	prov         map[Term]Term // value term -> untouched entry-state value it was loaded from
+	inContract   int
+	facetNames   map[string]bool // abstract-state facets (method names) used; persists across passes
 	trusted      map[Term]bool // terms trusted to be non-nil (entry parameters, initialised globals, getter results)
 	exit         *State
 	exitResults  []Term
@@ -128,7 +133,7 @@ func NewVC(P *Program, C *Contracts, fn *ssa.Function, opts VCOpts) *VC {
 	}
 	vc := &VC{P: P, C: C, root: fn, rootKey: funcKey(fn), sc: NewScript(),
 		structDecl: map[string]bool{}, structTypes: map[string]*types.Struct{}, tyIDs: map[string]int{}, tyTypes: map[int]types.Type{},
-		fldTags: map[string]int{}, memSorts: map[string]string{}, addrTerms: map[string]map[Term]bool{},
+		fldTags: map[string]int{}, memSorts: map[string]string{}, addrTerms: map[string]map[Term]*addrUse{},
 		closures: map[Term]*closureInfo{}, fnTerms: map[Term]*ssa.Function{}, occ: map[string]int{},
 		Inlined: map[string]bool{}, Abstracted: map[string]bool{}, Assumed: map[string]bool{}, opts: opts,
 		callSyms: map[string][]Term{}}
@@ -172,10 +177,25 @@ func (vc *VC) noteAddr(key string, a Term) {
 	}
 	m := vc.addrTerms[key]
 	if m == nil {
-		m = map[Term]bool{}
+		m = map[Term]*addrUse{}
 		vc.addrTerms[key] = m
 	}
-	m[a] = true
+	pos := len(vc.sc.items)
+	if vc.inContract > 0 {
+		// addresses mentioned by contract clauses relate arbitrary states (old / post): keep all
+		// frame instances for them
+		if u, ok := m[a]; ok {
+			u.first, u.last = 0, 1<<30
+		} else {
+			m[a] = &addrUse{first: 0, last: 1 << 30}
+		}
+		return
+	}
+	if u, ok := m[a]; ok {
+		u.last = pos
+	} else {
+		m[a] = &addrUse{first: pos, last: pos}
+	}
 }
 
 func (vc *VC) rawLoad(st *State, key, sort string, a Term) Term {
@@ -239,7 +259,7 @@ func (vc *VC) havoc(st *State, key, arrSort string, pred func(a Term) Term) {
 	old := vc.getMem(st, key, arrSort)
 	nm := vc.newMemVersion(key)
 	st.mem[key] = nm
-	vc.havocs = append(vc.havocs, havocEvent{key: key, old: old, new: nm, pred: pred})
+	vc.havocs = append(vc.havocs, havocEvent{key: key, old: old, new: nm, pred: pred, pos: len(vc.sc.items)})
 }
 
 // havocObject havocs every location (by type) of the object of type t rooted at p (same root object).
@@ -299,6 +319,11 @@ func (vc *VC) finalizeFrames() {
 		sort.Strings(as)
 		for _, a := range as {
 			if h.pred == nil {
+				continue
+			}
+			// an address only used before the havoc, or first seen after it (freshly allocated
+			// or freshly loaded), does not need the frame instance
+			if u := addrs[a]; u.last < h.pos || u.first > h.pos {
 				continue
 			}
 			vc.sc.Axiom(Implies(Not(h.pred(a)), Eq(sx("select", h.new, a), sx("select", h.old, a))))
